@@ -26,6 +26,9 @@ try:
     exec(compile(src, spec["probe"], "exec"), ns)
     outs = ns["nada_main"]()
     mir = nada_dsl_to_nada_mir(outs)
+    if spec.get("probe_twice"):
+        # the same traced outputs compiled a second time in this process
+        mir = nada_dsl_to_nada_mir(outs)
     print(json.dumps({"ok": mir, "log": log}))
 except Exception as e:     # noqa
     print(json.dumps({"exc": type(e).__name__, "msg": str(e)[:300], "phase": "probe"}))
